@@ -127,3 +127,121 @@ Theorem c08_code_bss_handle_msft_tag : forall rho e a len buf,
 Proof. exact code_bss_handle_msft_tag. Qed.
 Print Assumptions c08_code_bss_handle_msft_tag.
 
+(* ---- libwifi_enumerate_rsn_suites / _wpa_suites AS TRANSLATED (Gen/Sites.v): the group switch and both loops, for EVERY count, by induction; the type octet of the i-th suite is
+   LOADED from the array at 4 i + 3; vocabulary (types_at, enum_trace, enum_fuel, rsn_env, flagv, flags_of, table_of, desc_of, group_cases, loop_cases) in Proofs/CodeEnum.v.
+   A call's answer is one unknown per run, so the theorems cover "every OUI comparison answers equal" and "every one answers different". ---- *)
+From LW Require Import Base.Sweep Gen.Tables Proofs.CodeEnum.
+Local Open Scope list_scope.
+
+(* RSN, all OUIs the expected one: exactly 1 + np + na comparisons at the right addresses, the summary ends as e | group flag | pairwise flags | AKM flags, each flag the model table's *)
+Theorem c08_code_enumerate_rsn_equal : forall rho m e g P A tp ta,
+  0 <= e < 2 ^ 64 -> 0 <= g < 256 -> zlen tp < 2 ^ 31 -> zlen ta < 2 ^ 31 ->
+  0 <= P -> P + 4 * zlen tp <= 2 ^ 63 -> 0 <= A -> A + 4 * zlen ta <= 2 ^ 63 ->
+  types_at m P tp -> types_at m A ta ->
+  wrap s32 (rho "ret:memcmp") = 0 ->
+  exists rho',
+    exec (enum_fuel (length tp) (length ta)) m (rsn_env rho e g (zlen tp) (zlen ta) P A) [] body_libwifi_enumerate_rsn_suites =
+      Fell rho' (enum_trace (wrap u64 (rho "&rsn_info->group_cipher_suite.oui")) (wrap u64 (rho "str:\x00\x0f\xac")) P A (length tp) (length ta)) /\
+    rho' "bss->encryption_info" =
+      Z.lor (Z.lor (Z.lor e (flagv rsn_group_table g)) (flags_of rsn_pairwise_table tp)) (flags_of rsn_akm_table ta).
+Proof. exact code_enumerate_rsn_equal. Qed.
+Print Assumptions c08_code_enumerate_rsn_equal.
+
+(* the same for the WPA1 element *)
+Theorem c08_code_enumerate_wpa_equal : forall rho m e g P A tp ta,
+  0 <= e < 2 ^ 64 -> 0 <= g < 256 -> zlen tp < 65536 -> zlen ta < 65536 ->
+  0 <= P -> P + 4 * zlen tp <= 2 ^ 63 -> 0 <= A -> A + 4 * zlen ta <= 2 ^ 63 ->
+  types_at m P tp -> types_at m A ta ->
+  wrap s32 (rho "ret:memcmp") = 0 ->
+  exists rho',
+    exec (enum_fuel (length tp) (length ta)) m (wpa_env rho e g (zlen tp) (zlen ta) P A) [] body_libwifi_enumerate_wpa_suites =
+      Fell rho' (enum_trace (wrap u64 (rho "&wpa_info->multicast_cipher_suite.oui")) (wrap u64 (rho "str:\x00P\xf2")) P A (length tp) (length ta)) /\
+    rho' "bss->encryption_info" =
+      Z.lor (Z.lor (Z.lor e (flagv wpa_group_table g)) (flags_of wpa_pairwise_table tp)) (flags_of wpa_akm_table ta).
+Proof. exact code_enumerate_wpa_equal. Qed.
+Print Assumptions c08_code_enumerate_wpa_equal.
+
+(* RSN, foreign OUIs: the same calls, nothing ORed, no memory read *)
+Theorem c08_code_enumerate_rsn_differ : forall rho m e g P A np na,
+  0 <= e < 2 ^ 64 -> 0 <= g < 256 -> 0 <= np < 2 ^ 31 -> 0 <= na < 2 ^ 31 ->
+  0 <= P -> P + 4 * np <= 2 ^ 63 -> 0 <= A -> A + 4 * na <= 2 ^ 63 ->
+  wrap s32 (rho "ret:memcmp") <> 0 ->
+  exists rho',
+    exec (enum_fuel (Z.to_nat np) (Z.to_nat na)) m (rsn_env rho e g np na P A) [] body_libwifi_enumerate_rsn_suites =
+      Fell rho' (enum_trace (wrap u64 (rho "&rsn_info->group_cipher_suite.oui")) (wrap u64 (rho "str:\x00\x0f\xac")) P A (Z.to_nat np) (Z.to_nat na)) /\
+    rho' "bss->encryption_info" = e.
+Proof. exact code_enumerate_rsn_differ. Qed.
+Print Assumptions c08_code_enumerate_rsn_differ.
+
+(* WPA1, foreign OUIs *)
+Theorem c08_code_enumerate_wpa_differ : forall rho m e g P A np na,
+  0 <= e < 2 ^ 64 -> 0 <= g < 256 -> 0 <= np < 65536 -> 0 <= na < 65536 ->
+  0 <= P -> P + 4 * np <= 2 ^ 63 -> 0 <= A -> A + 4 * na <= 2 ^ 63 ->
+  wrap s32 (rho "ret:memcmp") <> 0 ->
+  exists rho',
+    exec (enum_fuel (Z.to_nat np) (Z.to_nat na)) m (wpa_env rho e g np na P A) [] body_libwifi_enumerate_wpa_suites =
+      Fell rho' (enum_trace (wrap u64 (rho "&wpa_info->multicast_cipher_suite.oui")) (wrap u64 (rho "str:\x00P\xf2")) P A (Z.to_nat np) (Z.to_nat na)) /\
+    rho' "bss->encryption_info" = e.
+Proof. exact code_enumerate_wpa_differ. Qed.
+Print Assumptions c08_code_enumerate_wpa_differ.
+
+(* against Model/Security.v enumerate_rsn *)
+Theorem c08_code_enumerate_rsn_refines_model : forall rho m e P A (info : rsn_info),
+  let g := snd (r_group info) in let tp := map snd (r_pairwise info) in let ta := map snd (r_akms info) in
+  fst (r_group info) = rsn_oui -> Forall (fun s => fst s = rsn_oui) (r_pairwise info) -> Forall (fun s => fst s = rsn_oui) (r_akms info) ->
+  0 <= e < 2 ^ 64 -> 0 <= g < 256 -> zlen tp < 2 ^ 31 -> zlen ta < 2 ^ 31 ->
+  0 <= P -> P + 4 * zlen tp <= 2 ^ 63 -> 0 <= A -> A + 4 * zlen ta <= 2 ^ 63 ->
+  types_at m P tp -> types_at m A ta ->
+  wrap s32 (rho "ret:memcmp") = 0 ->
+  exists rho',
+    exec (enum_fuel (length tp) (length ta)) m (rsn_env rho e g (zlen tp) (zlen ta) P A) [] body_libwifi_enumerate_rsn_suites =
+      Fell rho' (enum_trace (wrap u64 (rho "&rsn_info->group_cipher_suite.oui")) (wrap u64 (rho "str:\x00\x0f\xac")) P A (length tp) (length ta)) /\
+    rho' "bss->encryption_info" = Z.lor e (enumerate_rsn info).
+Proof. exact code_enumerate_rsn_refines_model. Qed.
+Print Assumptions c08_code_enumerate_rsn_refines_model.
+
+(* against Model/Security.v enumerate_wpa *)
+Theorem c08_code_enumerate_wpa_refines_model : forall rho m e P A (info : wpa_info),
+  let g := snd (wi_multicast info) in let tp := map snd (wi_unicast info) in let ta := map snd (wi_akms info) in
+  fst (wi_multicast info) = wpa_oui -> Forall (fun s => fst s = wpa_oui) (wi_unicast info) -> Forall (fun s => fst s = wpa_oui) (wi_akms info) ->
+  0 <= e < 2 ^ 64 -> 0 <= g < 256 -> zlen tp < 65536 -> zlen ta < 65536 ->
+  0 <= P -> P + 4 * zlen tp <= 2 ^ 63 -> 0 <= A -> A + 4 * zlen ta <= 2 ^ 63 ->
+  types_at m P tp -> types_at m A ta ->
+  wrap s32 (rho "ret:memcmp") = 0 ->
+  exists rho',
+    exec (enum_fuel (length tp) (length ta)) m (wpa_env rho e g (zlen tp) (zlen ta) P A) [] body_libwifi_enumerate_wpa_suites =
+      Fell rho' (enum_trace (wrap u64 (rho "&wpa_info->multicast_cipher_suite.oui")) (wrap u64 (rho "str:\x00P\xf2")) P A (length tp) (length ta)) /\
+    rho' "bss->encryption_info" = Z.lor e (enumerate_wpa info).
+Proof. exact code_enumerate_wpa_refines_model. Qed.
+Print Assumptions c08_code_enumerate_wpa_refines_model.
+
+(* the case labels and shift counts of this switch in the C text equal the table the model uses (a changed label or shift falsifies it) *)
+Theorem c08_code_rsn_group_cases_match : table_of (map desc_of (group_cases body_libwifi_enumerate_rsn_suites)) = rsn_group_table.
+Proof. exact rsn_group_cases_match. Qed.
+Print Assumptions c08_code_rsn_group_cases_match.
+
+(* the case labels and shift counts of this switch in the C text equal the table the model uses (a changed label or shift falsifies it) *)
+Theorem c08_code_rsn_pairwise_cases_match : table_of (map desc_of (loop_cases 4 body_libwifi_enumerate_rsn_suites)) = rsn_pairwise_table.
+Proof. exact rsn_pairwise_cases_match. Qed.
+Print Assumptions c08_code_rsn_pairwise_cases_match.
+
+(* the case labels and shift counts of this switch in the C text equal the table the model uses (a changed label or shift falsifies it) *)
+Theorem c08_code_rsn_akm_cases_match : table_of (map desc_of (loop_cases 6 body_libwifi_enumerate_rsn_suites)) = rsn_akm_table.
+Proof. exact rsn_akm_cases_match. Qed.
+Print Assumptions c08_code_rsn_akm_cases_match.
+
+(* the case labels and shift counts of this switch in the C text equal the table the model uses (a changed label or shift falsifies it) *)
+Theorem c08_code_wpa_group_cases_match : table_of (map desc_of (group_cases body_libwifi_enumerate_wpa_suites)) = wpa_group_table.
+Proof. exact wpa_group_cases_match. Qed.
+Print Assumptions c08_code_wpa_group_cases_match.
+
+(* the case labels and shift counts of this switch in the C text equal the table the model uses (a changed label or shift falsifies it) *)
+Theorem c08_code_wpa_pairwise_cases_match : table_of (map desc_of (loop_cases 4 body_libwifi_enumerate_wpa_suites)) = wpa_pairwise_table.
+Proof. exact wpa_pairwise_cases_match. Qed.
+Print Assumptions c08_code_wpa_pairwise_cases_match.
+
+(* the case labels and shift counts of this switch in the C text equal the table the model uses (a changed label or shift falsifies it) *)
+Theorem c08_code_wpa_akm_cases_match : table_of (map desc_of (loop_cases 6 body_libwifi_enumerate_wpa_suites)) = wpa_akm_table.
+Proof. exact wpa_akm_cases_match. Qed.
+Print Assumptions c08_code_wpa_akm_cases_match.
+
